@@ -11,6 +11,8 @@ AREA_CHECKS = {
     "R2": ["C01", "C12", "C13", "C17", "C18", "C19", "C20", "C11"],
     "R3": ["C04", "C05", "C06", "C07", "C08", "C09", "C10", "C14", "C15", "C16"],
     "R4": ["C02", "C03", "C04", "C05", "C06", "C07", "C11", "C13", "C14", "C15", "C16", "C19"],
+    # R5: configuration-sensitive and state-carrying spots all over the code: every check
+    "R5": ["C%02d" % i for i in range(1, 21)],
 }
 
 def sh(cmd, cwd=None, timeout=3600):
